@@ -8,6 +8,7 @@ import (
 	"fmt"
 	"math/big"
 	"reflect"
+	"runtime"
 	"unsafe"
 
 	"github.com/taurusgroup/multi-party-sig/internal/round"
@@ -228,4 +229,10 @@ func ChanClosed(h interface {
 	default:
 		return false
 	}
+}
+
+func stackString() string {
+	b := make([]byte, 8192)
+	n := runtime.Stack(b, false)
+	return string(b[:n])
 }
